@@ -8,7 +8,7 @@ V1 = "priority/priority.go"
 V2 = "v2/priority/priority.go"
 CAT = [
  # name, file, old, new, checks, expect ("caught" or "silent": property-preserving variant)
- ("c01_recalc_divides_H", V2, "		dsc.useful,\n		remainder,\n		dsc.tactic,", "		dsc.useful,\n		dsc.opts.HandlersQuantity,\n		dsc.tactic,", ["C01"], "caught"),
+ ("c01_recalc_divides_H", V2, "		dsc.useful,\n		remainder,\n		dsc.tactic,", "		dsc.useful,\n		dsc.opts.HandlersQuantity+0*remainder,\n		dsc.tactic,", ["C01"], "caught"),
  ("c01_send_no_decrease_tactic", V2, "	dsc.decreaseTactic(priority)\n	dsc.increaseActual(priority)\n	dsc.verifAt(\"Send\"", "	dsc.increaseActual(priority)\n	dsc.verifAt(\"Send\"", ["C01"], "caught"),
  ("c01_safedivide_ge", "v2/priority/assist.go", "	if after-before != dividend {", "	if after-before < dividend {", ["C15"], "caught"),
  ("c01_double_decrease_limfb", V2, "		case priority := <-dsc.feedback:\n			dsc.decreaseActual(priority)\n			dsc.verifAt(\"FbLim\"", "		case priority := <-dsc.feedback:\n			dsc.decreaseActual(priority)\n			if dsc.actual[priority] > 0 {\n				dsc.decreaseActual(priority)\n			}\n			dsc.verifAt(\"FbLim\"", ["C01"], "caught"),
